@@ -835,6 +835,102 @@ _JUDGES: dict[str, Callable[[dict[str, Any]], tuple[list[tuple[str, str]], list[
 }
 
 
+# ------------------------------------------------------------------------------------------------
+# float vectors at generated magnitudes (1e-30 .. 1e15): same clauses, floating-point tolerance relative to the vector
+
+
+@st.composite
+def fvec_case(draw: Any) -> Any:
+    sysname = draw(st.sampled_from(["cyl", "sph"]))
+    direction = draw(st.sampled_from(["c2q", "q2c"]))
+    exp = draw(st.one_of(st.integers(-30, -13), st.integers(-12, 6), st.integers(7, 15)))
+    mant = [draw(st.integers(-99, 99).filter(lambda x: x != 0)) for _ in range(3)]
+    ang = [draw(_azimuth()), draw(_polar())]
+    return {"mode": "fvec", "sys": sysname, "dir": direction, "exp": exp, "mant": mant, "ang": ang,
+        "k": draw(_nz_rat(-6, 6))[1]}
+
+
+FTOL = mpf("1e-11")
+
+
+def judge_fvec(case: dict[str, Any]) -> tuple[list[tuple[str, str]], list[str]]:
+    # pylint: disable=too-many-locals,too-many-statements
+    import sympy
+    from symplyphysics import CoordinateSystem, Vector
+    from symplyphysics.core.vectors.arithmetics import dot_vectors, scale_vector, vector_magnitude
+    sysname, direction = case["sys"], case["dir"]
+    j = _Judge(f"float vector sys={sysname} dir={direction} mant={case['mant']} exp={case['exp']} ang={case['ang']} k={case['k']}")
+    cart, curv = make_systems(sysname, "cart")
+    unit = 10.0**case["exp"]
+    angles = angle_slots(sysname)
+    if direction == "c2q":
+        comps = [float(m) * unit for m in case["mant"]]
+    elif sysname == "cyl":
+        comps = [abs(float(case["mant"][0])) * unit, float(v_mp(case["ang"][0])), float(case["mant"][2]) * unit]
+    else:
+        comps = [abs(float(case["mant"][0])) * unit, float(v_mp(case["ang"][0])), float(v_mp(case["ang"][1]))]
+    vals = [mpf(c) for c in comps]  # the exact binary values handed to the library
+    p_v = vals if direction == "c2q" else x_of(sysname, vals)
+    q_v = q_of(sysname, vals) if direction == "c2q" else vals
+    length = MP.sqrt(m_dot3(p_v, p_v))
+    k_mp, k_sym = v_mp(["n", case["k"]]), sympy.Rational(case["k"])
+
+    def near(tag: str, what: str, got_comps: Any, want: list[Any], curvilinear: bool, scale: Any = None) -> None:
+        got_comps = list(got_comps) + [0] * (3 - len(list(got_comps)))
+        for i, (c, w) in enumerate(zip(got_comps, want)):
+            try:
+                g = lib_num(c)
+            except Undefined as exc:
+                j.fail(tag, f"{what}: component {i} undefined ({exc})")
+                return
+            is_angle = curvilinear and i in angles
+            d = g - w
+            if is_angle:
+                d = d - TWO_PI * MP.nint(d / TWO_PI)
+            if abs(d) > FTOL * (1 if is_angle else (scale if scale is not None else length)):
+                j.fail(tag, f"{what}: component {i} is {MP.nstr(g, 17)}, expected {MP.nstr(w, 17)} (vector length {MP.nstr(length, 5)})")
+                return
+
+    def scalar(tag: str, what: str, got: Any, want: Any, scale: Any) -> None:
+        try:
+            g = lib_num(got)
+        except Undefined as exc:
+            j.fail(tag, f"{what}: undefined ({exc})")
+            return
+        if abs(g - want) > FTOL * scale:
+            j.fail(tag, f"{what}: {MP.nstr(g, 17)}, expected {MP.nstr(want, 17)}")
+
+    src, dst = (cart, curv) if direction == "c2q" else (curv, cart)
+    tag = f"cart->{sysname}" if direction == "c2q" else f"{sysname}->cart"
+    V = Vector([sympy.Float(c) for c in comps], src)
+    R = j.guarded(f"float:rebase:{tag}", lambda: V.rebase(dst))
+    if R is not None:
+        near(f"float:rebase:{tag}", "v.rebase(other system)", R.components, q_v if direction == "c2q" else p_v, direction == "c2q")
+        back = j.guarded(f"float:roundtrip:{tag}", lambda: R.rebase(src))
+        if back is not None:
+            near(f"float:roundtrip:{tag}", "v.rebase(B).rebase(A)", back.components, vals, direction == "q2c")
+    Vq = R if direction == "c2q" else V  # the curvilinear representative
+    if Vq is not None:
+        mag = j.guarded(f"float:magnitude:{sysname}", lambda: vector_magnitude(Vq))
+        if mag is not None:
+            scalar(f"float:magnitude:{sysname}", "vector_magnitude in curvilinear components", mag, length, length)
+        dd = j.guarded(f"float:dot:{sysname}", lambda: dot_vectors(Vq, Vq))
+        if dd is not None:
+            scalar(f"float:dot:{sysname}", "dot_vectors(v, v) in curvilinear components", dd, length * length, length * length)
+        sv = j.guarded(f"float:scale:{sysname}", lambda: scale_vector(k_sym, Vq))
+        if sv is not None:
+            try:
+                got = x_of(sysname, [lib_num(c) for c in sv.components])
+                for i in range(3):
+                    if abs(got[i] - k_mp * p_v[i]) > FTOL * length * (1 + abs(k_mp)):
+                        j.fail(f"float:scale:{sysname}", f"scale_vector(k, v) maps to Cartesian {[MP.nstr(x, 15) for x in got]}, expected "
+                            f"{[MP.nstr(k_mp * x, 15) for x in p_v]}")
+                        break
+            except Undefined as exc:
+                j.fail(f"float:scale:{sysname}", f"scale_vector: undefined component ({exc})")
+    return j.out, ["float-vector", "float-exp:" + ("micro" if case["exp"] < -12 else "macro" if case["exp"] <= 6 else "astro")]
+
+
 def judge(case: dict[str, Any]) -> tuple[list[tuple[str, str]], list[str]]:
     return _JUDGES[case["mode"]](case)
 
@@ -861,6 +957,8 @@ def _labels(case: dict[str, Any]) -> list[str]:
     mode = case["mode"]
     if mode == "refuse":
         return [f"refuse:{case['what']}"]
+    if mode == "fvec":
+        return ["mode=fvec", f"fvec:sys={case['sys']}", f"fvec:dir={case['dir']}"]
     labs = [f"mode={mode}", f"{mode}:sys={case['sys']}", f"{mode}:dir={case['dir']}", f"{mode}:parent={case['parent']}"]
     if mode == "vec":
         labs.append(f"vec:len_v={len(case['v'])}")
@@ -920,7 +1018,8 @@ def _record(rec: Recorder, case: dict[str, Any], excluded: dict[str, str]) -> No
     rec.case(case, nontrivial=nontrivial(case), labels=_labels(case) + labs)
 
 
-_STRATEGIES = {"vec": vec_case, "field": field_case, "dynvec": dynvec_case, "dynfield": dynfield_case}
+_STRATEGIES = {"vec": vec_case, "field": field_case, "dynvec": dynvec_case, "dynfield": dynfield_case, "fvec": fvec_case}
+_JUDGES["fvec"] = judge_fvec
 
 
 def _shard(task: dict[str, Any]) -> Recorder:
@@ -947,7 +1046,7 @@ def run(ctx: Ctx) -> None:
     if K_FIELD in open_known:
         excluded["dynfield"] = K_FIELD
     plan = {"vec": ctx.pick(1300, 20000), "field": ctx.pick(650, 9000), "dynvec": ctx.pick(130, 1500),
-        "dynfield": ctx.pick(130, 1500)}
+        "dynfield": ctx.pick(130, 1500), "fvec": ctx.pick(480, 8000)}
     judge(CANARY_FIELD)  # warm SymPy before forking
     tasks: list[dict[str, Any]] = []
     # canaries: the minimal reproductions of the own-base-scalar class are always judged, so that an open known
